@@ -80,7 +80,7 @@ def run(tier, seed, mutant=None, only_validate=False):
             with cf.ThreadPoolExecutor(4) as ex:
                 for (name, prop, consts), r, rec in ex.map(one, cat):
                     res.tlc_runs.append(rec)
-                    if not r.ok:
+                    if not r.ok and not amod.incomplete(r, rec):
                         res.violations.append(dict(property=prop, engine="adf", clause=r.violated or "tlc-error",
                                                    what="DFAgg.tla violates %s for %s" % (r.violated or (r.error or "")[:200], name),
                                                    signature=dict(kind="spec", clause=r.violated or "error", name=name)))
